@@ -1379,7 +1379,21 @@ func cmdC15(args []string) error {
 		if atomic.LoadInt32(&c15Unsettled) >= 3 {
 			break
 		}
-		ds, err := s.run(i)
+		var ds []*c15Delivery
+		var err error
+		func() {
+			defer func() {
+				if pv := recover(); pv != nil {
+					// registering the scenario's handlers panicked (e.g. a router-handler name that is not the
+					// cqrs handler's HandlerName collides): reported as a delivery that could not be made
+					ds = []*c15Delivery{{ID: fmt.Sprintf("s%d-setup", i), Tab: s.tabIdx, Kind: s.kind, Ctor: "config", Source: "setup", Trace: [][]interface{}{}, Settles: []bool{},
+						Handlers: [][2]int{}, Scripts: [][2]int{}, Meta: [][2]int{},
+						Anomalies: []string{fmt.Sprintf("registering the handlers on the Router panicked: %v", pv)}}}
+					err = nil
+				}
+			}()
+			ds, err = s.run(i)
+		}()
 		if err != nil {
 			return fmt.Errorf("scenario %d: %w", i, err)
 		}
